@@ -52,11 +52,10 @@ def run(rep):
     cases = [K.assign_flavours(s, rng) for s in cases]
     skipped = [s for s in cases if not K.in_fragment(s)]
     cases = [s for s in cases if K.in_fragment(s)]
-    _, _, stats = K.judge_all(rep, PID, cases, with_summary=True, nontrivial=nontrivial)
-    for name, D, res in stats:
-        rep.add_mc(f"{name} Dev={sorted(D)}", res, ["(conformance evaluation)"])
+    cases = [dict(s, summary=True) for s in cases]
     rep.bounds["enumerated"] = dict(universe=uni, scenarios=len(scen), replayed=len(cases), outside_fragment=len(skipped))
     rep.exhaustive = not quick
+    # (I->S)
     n = 200 if quick else 4000
     rnd = []
     k = 0
@@ -65,11 +64,12 @@ def run(rep):
         s = K.random_scenario(rng, k, PID)
         if K.in_fragment(s):
             rnd.append(s)
-    for i in range(0, len(rnd), 1000):
-        _, _, stats = K.judge_all(rep, PID, rnd[i:i + 1000], with_summary=False, nontrivial=nontrivial)
-        for name, D, res in stats:
-            rep.add_mc(f"{name} Dev={sorted(D)}", res, ["TraceNext consumes every event"])
     rep.bounds["random"] = dict(scenarios=n)
+    allc = cases + rnd
+    for i in range(0, len(allc), 1500):
+        _, _, stats = K.judge_all(rep, PID, allc[i:i + 1500], nontrivial=nontrivial)
+        for name, D, res in stats:
+            rep.add_mc(f"{name} Dev={sorted(D)}", res, ["(conformance: TraceNext consumes every event / summary evaluation)"])
 
 
 def replay(path):
